@@ -160,6 +160,17 @@ def build_args_list(case, msleep, boom):
     return out
 
 
+def _ncpu_value(tok):
+    import numpy as np
+    if tok == 'none':
+        return None
+    if tok.startswith('int:'):
+        return int(tok[4:])
+    if tok.startswith('bool:'):
+        return bool(int(tok[5:]))
+    return {'float': 2.0, 'npint': np.int64(2), 'str': '2'}[tok]
+
+
 def _stub_analysis():
     import numpy as np
     from skyllh.core.analysis import Analysis
@@ -217,7 +228,11 @@ def _child_main(case, wfd):
                 ana = _stub_analysis()
                 form = case.get('form') or {}
                 kw = {} if form.get('kwargs') == 'empty' else {'k': 7}
-                if form.get('ncpu') == 'cfg':       # ncpu=None: taken from the configuration by get_ncpu
+                if case.get('ncpu_values') is not None:      # (cfg value, local value), possibly illegal ones
+                    cv, lv = [_ncpu_value(t) for t in case['ncpu_values']]
+                    ana._cfg['multiproc']['ncpu'] = cv
+                    rec = ana.do_trials(rss, case['n'], ncpu=lv, **kw)
+                elif form.get('ncpu') == 'cfg':       # ncpu=None: taken from the configuration by get_ncpu
                     ana._cfg['multiproc']['ncpu'] = case['ncpu']
                     rec = ana.do_trials(rss, case['n'], **kw)
                 elif form.get('ncpu') == 'positional':
